@@ -502,6 +502,19 @@ class BaseCurve(Intface_BaseCurve):
         newknotvector = KnotVector(newknotvector)
         if newknotvector == self.knotvector:
             return
+        if self.ctrlpoints is None and self.weights is not None:
+            # Weights without control points: refit the weight function
+            temp_curve = self.__class__(self.knotvector)
+            temp_curve.ctrlpoints = self.weights
+            temp_curve.update(newknotvector, tolerance, nodes)
+            oldknotvector = self.__knotvector
+            self.__knotvector = newknotvector
+            try:
+                self.weights = temp_curve.ctrlpoints
+            except ValueError as error:
+                self.__knotvector = oldknotvector
+                raise error
+            return
         if self.ctrlpoints is None:
             self.__knotvector = newknotvector
             return
